@@ -109,20 +109,46 @@ def scan_nothrow(fn):
                 and n.value.func.attr in ("splitlines", "split"):
             line_lists[n.targets[0].id] = (n.value.func.attr, src(n.value.func.value))
 
+    def len_bound(test, name, positive):
+        """greatest m such that `len(name) >= m` follows from `test` being true (positive) or false"""
+        if isinstance(test, ast.UnaryOp) and isinstance(test.op, ast.Not):
+            return len_bound(test.operand, name, not positive)
+        if isinstance(test, ast.BoolOp):
+            parts = [len_bound(v, name, positive) for v in test.values]
+            is_and = isinstance(test.op, ast.And)
+            # true `and` / false `or`: every part holds;  otherwise only the weakest is certain
+            return max(parts) if (is_and == positive) else min(parts)
+        if isinstance(test, ast.Name) and test.id == name:
+            return 1 if positive else 0
+        if isinstance(test, ast.Compare) and len(test.ops) == 1:
+            l, op, r = test.left, test.ops[0], test.comparators[0]
+            flip = {ast.Lt: ast.Gt, ast.Gt: ast.Lt, ast.LtE: ast.GtE, ast.GtE: ast.LtE, ast.Eq: ast.Eq, ast.NotEq: ast.NotEq}
+            if src(r) == f"len({name})" and isinstance(l, ast.Constant) and type(op) in flip:
+                l, r, op = r, l, flip[type(op)]()
+            if src(l) == f"len({name})" and isinstance(r, ast.Constant) and isinstance(r.value, int):
+                k = r.value
+                neg = {ast.Lt: ast.GtE, ast.LtE: ast.Gt, ast.Gt: ast.LtE, ast.GtE: ast.Lt, ast.Eq: ast.NotEq, ast.NotEq: ast.Eq}
+                o = type(op) if positive else neg.get(type(op))
+                if o is ast.Gt:
+                    return k + 1
+                if o is ast.GtE:
+                    return k
+                if o is ast.Eq:
+                    return k
+                if o is ast.NotEq and k == 0:
+                    return 1
+        return 0
+
     def guarded(sub, k, ancestors):
-        """is x[k] protected by `len(x) > k`-style test on the path to it?"""
+        """is x[k] protected by a test that implies len(x) > k on the path to it (enclosing `if`,
+        earlier conjunct, or an earlier guard clause that left the function)?"""
         name = src(sub.value)
-        pats = [rf"len\({re.escape(name)}\) > (\d+)", rf"len\({re.escape(name)}\) >= (\d+)",
-                rf"(\d+) < len\({re.escape(name)}\)"]
         for kind, test in ancestors:
             if kind == "try-IndexError":
                 return True
-            t = src(test)
-            m = re.fullmatch(pats[0], t) or re.fullmatch(pats[2], t)
-            if m and int(m.group(1)) >= k:
-                return True
-            m = re.fullmatch(pats[1], t)
-            if m and int(m.group(1)) >= k + 1:
+            if test is None:
+                continue
+            if len_bound(test, name, kind != "ifnot") >= k + 1:
                 return True
         return False
 
@@ -238,7 +264,9 @@ def scan_nothrow(fn):
             elif isinstance(st, ast.If):
                 visit_expr(st.test, anc)
                 visit_block(st.body, anc + [("if", st.test)])
-                visit_block(st.orelse, anc)
+                visit_block(st.orelse, anc + [("ifnot", st.test)])
+                if st.body and isinstance(st.body[-1], (ast.Return, ast.Raise, ast.Continue, ast.Break)) and not st.orelse:
+                    anc = anc + [("ifnot", st.test)]      # guard clause: the rest runs only when the test was false
             elif isinstance(st, ast.Try):
                 names = []
                 for h in st.handlers:
@@ -353,8 +381,12 @@ def markers(ctx, report, folder):
     alpha = R.make_alphabet(u.pattern)
     lang = R.lang_of_pattern(u.pattern, alpha, u.mode, u.flags)
     mw = idx.get_function("pycaption/microdvd.py", "MicroDVDWriter._recreate_lang")
-    fs = [n for n in walk_no_nested(mw.node) if isinstance(n, ast.JoinedStr) and
-          "".join(v.value for v in n.values if isinstance(v, ast.Constant)) == "{}{}"]
+    from ..core.astutil import template_holes, closure_nodes
+    fs = []
+    for f2, n in closure_nodes(ctx.index, mw, (ast.JoinedStr, ast.Call, ast.BinOp)):
+        th = template_holes(n)
+        if th is not None and th[0].startswith("{}{}") and len(th[1]) >= 2:
+            fs.append(n)
     if len(fs) != 1:
         raise AnalysisError("MicroDVDWriter: {start}{end} template not found")
     # a written document: prefix, then any text without a newline, then newline, then anything
